@@ -104,6 +104,7 @@ struct VData : Profile {
         p.knobs["clients"] = kr.range(1, MAXCLIENT);
         p.knobs["ndds"]    = kr.chance(0.5) ? kr.range(2, 8) : 16;
         p.knobs["longnames"] = kr.chance(0.25) ? 1 : 0; // field names of 124..128 characters
+        p.knobs["namesdesc"] = kr.chance(0.5) ? 1 : 0;  // longer field names first
         if (kr.chance(0.6))
             p.knobs["vsbuf"] = kr.chance(0.5) ? kr.range(8, 64) : kr.range(65, 600); // internal transfer buffer (hook)
         if (kr.chance(0.4)) {
@@ -186,7 +187,13 @@ struct VData : Profile {
         static bool v = false;
         return v;
     }
-    static std::string fname(int j) { return (longnames() ? std::string(123, 'n') : std::string()) + "f" + std::string("wxyz").substr(0, (size_t)j); }
+    // (with knob namesdesc the longer names come first in the record, so that a shorter name is a prefix of a field stored BEFORE it)
+    static bool &namesdesc()
+    {
+        static bool v = false;
+        return v;
+    }
+    static std::string fname(int j) { return (longnames() ? std::string(123, 'n') : std::string()) + "f" + std::string("wxyz").substr(0, (size_t)(namesdesc() ? MAXF - 1 - j : j)); }
     static std::string allfields(const MTable &t)
     {
         std::string s;
@@ -326,6 +333,7 @@ struct VData : Profile {
         int         ndds = (int)p.knob("ndds", 16);
         apply_hook_knobs(p);
         longnames() = p.knob("longnames", 0) != 0;
+        namesdesc() = p.knob("namesdesc", 0) != 0;
         if (longnames())
             ctx.probe("field-names-at-the-limit");
         for (size_t i = 0; i < p.ops.size(); i++) {
